@@ -93,7 +93,30 @@ func (h Hash) h2(left, right, pubSeed []byte, a addr) []byte {
 	return h.core(1, key, xor(in, append(m0, m1...)))
 }
 
+// WParams are the WOTS+ parameters for a Winternitz parameter w in {4,16,256}, by the formulas of RFC 8391 section
+// 3.1.1 with n = 32: len1 = ceil(8n/lg w), len2 = floor(lg(len1*(w-1))/lg w)+1 (computed on integers here).
+type WParams struct {
+	W, LogW, Len1, Len2, Len int
+}
+
+func ParamsFor(w int) WParams {
+	lg := map[int]int{4: 2, 16: 4, 256: 8}[w]
+	if lg == 0 {
+		panic("xmssref: w must be 4, 16 or 256")
+	}
+	len1 := (8*N + lg - 1) / lg
+	// floor(log_w(len1*(w-1))) + 1 = number of base-w digits of len1*(w-1)
+	len2 := 0
+	for v := len1 * (w - 1); v > 0; v >>= uint(lg) {
+		len2++
+	}
+	return WParams{W: w, LogW: lg, Len1: len1, Len2: len2, Len: len1 + len2}
+}
+
+var p16 = ParamsFor(16)
+
 type Key struct {
+	P       WParams // zero value means w = 16
 	Hash    Hash
 	Height  int
 	SKSeed  []byte
@@ -105,9 +128,16 @@ type Key struct {
 
 func (k *Key) Root() []byte { return k.nodes[k.Height][0] }
 
+func (k *Key) p() WParams {
+	if k.P.W == 0 {
+		return p16
+	}
+	return k.P
+}
+
 func (k *Key) chain(x []byte, start, steps int, a addr) []byte {
 	out := append([]byte{}, x...)
-	for i := start; i < start+steps && i < W; i++ {
+	for i := start; i < start+steps && i < k.p().W; i++ {
 		a[6] = uint32(i)
 		out = k.Hash.f(out, k.PubSeed, a)
 	}
@@ -121,7 +151,7 @@ func (k *Key) otsSeed(leaf uint32) []byte {
 
 func (k *Key) wotsSK(leaf uint32) [][]byte {
 	seed := k.otsSeed(leaf)
-	sk := make([][]byte, Len)
+	sk := make([][]byte, k.p().Len)
 	for j := range sk {
 		sk[j] = k.Hash.prf(seed, toByte32(uint32(j)))
 	}
@@ -130,9 +160,9 @@ func (k *Key) wotsSK(leaf uint32) [][]byte {
 
 func (k *Key) wotsPK(leaf uint32) [][]byte {
 	sk := k.wotsSK(leaf)
-	pk := make([][]byte, Len)
+	pk := make([][]byte, k.p().Len)
 	for j := range pk {
-		pk[j] = k.chain(sk[j], 0, W-1, addr{0, 0, 0, 0, leaf, uint32(j), 0, 0})
+		pk[j] = k.chain(sk[j], 0, k.p().W-1, addr{0, 0, 0, 0, leaf, uint32(j), 0, 0})
 	}
 	return pk
 }
@@ -157,10 +187,14 @@ func lTree(h Hash, pk [][]byte, pubSeed []byte, leaf uint32) []byte {
 func (k *Key) leaf(i uint32) []byte { return lTree(k.Hash, k.wotsPK(i), k.PubSeed, i) }
 
 // NewKey expands the 48-byte seed and builds the complete tree.
-func NewKey(seed []byte, height int, h Hash) *Key {
+func NewKey(seed []byte, height int, h Hash) *Key { return NewKeyW(seed, height, h, 16) }
+
+// NewKeyW is NewKey for a Winternitz parameter w in {4,16,256} (the library only signs with w = 16 but verifies
+// with any of the three).
+func NewKeyW(seed []byte, height int, h Hash, w int) *Key {
 	rnd := make([]byte, 96)
 	sha3.ShakeSum256(rnd, seed)
-	k := &Key{Hash: h, Height: height, SKSeed: rnd[0:32], SKPRF: rnd[32:64], PubSeed: rnd[64:96]}
+	k := &Key{P: ParamsFor(w), Hash: h, Height: height, SKSeed: rnd[0:32], SKPRF: rnd[32:64], PubSeed: rnd[64:96]}
 	k.nodes = make([][][]byte, height+1)
 	k.nodes[0] = make([][]byte, 1<<uint(height))
 	for i := range k.nodes[0] {
@@ -176,18 +210,41 @@ func NewKey(seed []byte, height int, h Hash) *Key {
 	return k
 }
 
-func digits(msgHash []byte) []int {
-	d := make([]int, 0, Len)
-	sum := 0
-	for _, b := range msgHash {
-		d = append(d, int(b>>4), int(b&15))
+
+// baseW is RFC 8391 Algorithm 1: outLen base-w digits of x, most significant bits first.
+func baseW(p WParams, x []byte, outLen int) []int {
+	d := make([]int, 0, outLen)
+	in, total, bits := 0, 0, 0
+	for len(d) < outLen {
+		if bits == 0 {
+			total = int(x[in])
+			in++
+			bits = 8
+		}
+		bits -= p.LogW
+		d = append(d, (total>>uint(bits))&(p.W-1))
 	}
-	for _, x := range d {
-		sum += W - 1 - x
-	}
-	// 3 base-16 digits of the checksum, most significant first (12 bits, left-aligned in 2 bytes)
-	d = append(d, (sum>>8)&15, (sum>>4)&15, sum&15)
 	return d
+}
+
+// DigitsW is the message-to-chain-lengths map of RFC 8391 Algorithm 5 / 6, applied literally for any of the three
+// values of w: csum = sum(w-1-d_i); csum <<= 8 - ((len2*lg w) mod 8); append base_w(toByte(csum, ceil(len2*lg w/8)),
+// len2). For w = 256 the formula shifts by a whole byte (the remainder is 0) and toByte keeps the low two bytes,
+// so the two checksum digits are (csum mod 256, 0): that is what the formula says, and it is used as written.
+func DigitsW(p WParams, msgHash []byte) []int {
+	d := baseW(p, msgHash, p.Len1)
+	csum := 0
+	for _, x := range d {
+		csum += p.W - 1 - x
+	}
+	csum <<= uint(8 - (p.Len2*p.LogW)%8)
+	nb := (p.Len2*p.LogW + 7) / 8
+	cb := make([]byte, nb)
+	for i := nb - 1; i >= 0; i-- { // toByte: big-endian, low-order bytes kept
+		cb[i] = byte(csum)
+		csum >>= 8
+	}
+	return append(d, baseW(p, cb, p.Len2)...)
 }
 
 func (k *Key) msgHash(r []byte, idx uint32, msg []byte) []byte {
@@ -201,9 +258,9 @@ func (k *Key) Sign(idx uint32, msg []byte) []byte {
 	binary.BigEndian.PutUint32(sig, idx)
 	r := k.Hash.prf(k.SKPRF, toByte32(idx))
 	sig = append(sig, r...)
-	d := digits(k.msgHash(r, idx, msg))
+	d := DigitsW(k.p(), k.msgHash(r, idx, msg))
 	sk := k.wotsSK(idx)
-	for j := 0; j < Len; j++ {
+	for j := 0; j < k.p().Len; j++ {
 		sig = append(sig, k.chain(sk[j], 0, d[j], addr{0, 0, 0, 0, idx, uint32(j), 0, 0})...)
 	}
 	for l := 0; l < k.Height; l++ {
@@ -224,14 +281,20 @@ func (k *Key) AuthPath(idx uint32) []byte {
 // Verify is the specification-level verifier: it takes the parsed public key
 // (hash, height, root, pubSeed) and answers whether sig is valid for msg.
 func Verify(h Hash, height int, root, pubSeed, msg, sig []byte) bool {
+	return VerifyW(p16, h, height, root, pubSeed, msg, sig)
+}
+
+// VerifyW is Verify for a chosen Winternitz parameter.
+func VerifyW(p WParams, h Hash, height int, root, pubSeed, msg, sig []byte) bool {
+	Len, W := p.Len, p.W
 	if len(sig) != 4+N+Len*N+height*N {
 		return false
 	}
 	idx := binary.BigEndian.Uint32(sig)
 	r := sig[4 : 4+N]
 	key := append(append(append([]byte{}, r...), root...), toByte32(idx)...)
-	d := digits(h.core(2, key, msg))
-	k := &Key{Hash: h, PubSeed: pubSeed}
+	d := DigitsW(p, h.core(2, key, msg))
+	k := &Key{P: p, Hash: h, PubSeed: pubSeed}
 	pk := make([][]byte, Len)
 	for j := 0; j < Len; j++ {
 		pk[j] = k.chain(sig[36+j*N:36+(j+1)*N], d[j], W-1-d[j], addr{0, 0, 0, 0, idx, uint32(j), 0, 0})
@@ -270,7 +333,13 @@ func NodeHash(h Hash, left, right, pubSeed []byte, level, idx uint32) []byte {
 // caller's arbitrary 32-byte values, and the root is whatever the path hashes to. Used to
 // present spec-valid triples for heights and indices no real key can afford (h up to 30).
 func Fabricate(h Hash, height int, idx uint32, msg, skSeed, pubSeed, r []byte, siblings [][]byte, tamperBit int) (sig, root []byte) {
-	k := &Key{Hash: h, Height: height, SKSeed: skSeed, PubSeed: pubSeed}
+	return FabricateW(p16, h, height, idx, msg, skSeed, pubSeed, r, siblings, tamperBit)
+}
+
+// FabricateW is Fabricate for a chosen Winternitz parameter.
+func FabricateW(p WParams, h Hash, height int, idx uint32, msg, skSeed, pubSeed, r []byte, siblings [][]byte, tamperBit int) (sig, root []byte) {
+	Len := p.Len
+	k := &Key{P: p, Hash: h, Height: height, SKSeed: skSeed, PubSeed: pubSeed}
 	node := k.leaf(idx)
 	i := idx
 	for l := 0; l < height; l++ {
@@ -293,7 +362,7 @@ func Fabricate(h Hash, height int, idx uint32, msg, skSeed, pubSeed, r []byte, s
 	binary.BigEndian.PutUint32(sig, idx)
 	sig = append(sig, r...)
 	key := append(append(append([]byte{}, r...), root...), toByte32(idx)...)
-	d := digits(h.core(2, key, msg))
+	d := DigitsW(p, h.core(2, key, msg))
 	sk := k.wotsSK(idx)
 	for j := 0; j < Len; j++ {
 		sig = append(sig, k.chain(sk[j], 0, d[j], addr{0, 0, 0, 0, idx, uint32(j), 0, 0})...)
@@ -306,3 +375,6 @@ func Fabricate(h Hash, height int, idx uint32, msg, skSeed, pubSeed, r []byte, s
 
 // SigLen is the signature length for a tree of the given height.
 func SigLen(height int) int { return 4 + N + Len*N + height*N }
+
+// SigLenW is SigLen for a chosen Winternitz parameter.
+func SigLenW(p WParams, height int) int { return 4 + N + p.Len*N + height*N }
